@@ -164,10 +164,14 @@ CHECKS = {
         ref="DESIGN.md section 3 C18"),
     "C20": dict(
         level="model_checking", engine="pysym",
-        technique="symbolic execution of ForgivingFactor.delta and ForgivingFactorBits size model on z3-backed reals/ints (NRA/NIA queries)",
-        text="delta: zero at equal sizes, strictly decreasing in the trial size (two symbolic trials), positive below / negative above the reference; "
-             "size model: parameters and activations equal elements x bits of the applied quantizer (reference width where none), reference = stress x size.",
-        note="The hyper-model / search-space clauses are NOT covered: qkeras.autoqkeras cannot be imported under the pinned environment.",
+        technique="symbolic execution of AutoQKHyperModel._get_quantizer (symbolic bit widths and limits, nondeterministic tuner), ForgivingFactor.delta and the "
+                  "ForgivingFactorBits size model on z3-backed reals/ints (LIA/NRA/NIA queries); exhaustive enumeration of small search spaces through quantize_model (auxiliary)",
+        text="search space: on every path of _get_quantizer the chosen quantizer's bits are within the limit (or its name in the allowed list), classes "
+             "without a limit entry stay unquantized, layers matching one pattern share one choice; delta: zero at equal sizes, strictly decreasing in the "
+             "trial size (two symbolic trials), positive below / negative above the reference; size model: parameters and activations equal elements x "
+             "bits of the applied quantizer (reference width where none), reference = stress x size, every get_trial reports the model it was given.",
+        note="keras_tuner cannot be imported under the pinned environment and is replaced by a stub module (four names); the tuner object is a "
+             "nondeterministic stub.  Filter tuning, recurrent / separable layers and the learning-rate option of the hyper-model are not exercised.",
         ref="DESIGN.md section 3 C20"),
 }
 
